@@ -18,6 +18,8 @@ pub struct CycRef<'a> {
     /// block nodes that lie on a cycle (non-trivial SCC or self loop)
     pub on_cycle: BTreeSet<usize>,
     pub untracked: Vec<bool>,
+    /// input fields read directly by each node's body (control flow depends on inputs only)
+    pub reads: Vec<BTreeSet<(usize, usize)>>,
 }
 
 struct H<'x> {
@@ -25,12 +27,14 @@ struct H<'x> {
     vals: &'x [u32],
     calls: Vec<usize>,
     untracked: bool,
+    reads: BTreeSet<(usize, usize)>,
 }
 
 impl<'x> Host for H<'x> {
     type Ts = ();
     type It = ();
     fn read_in(&mut self, i: usize, f: usize) -> u32 {
+        self.reads.insert((i, f));
         self.world.ins[i][f]
     }
     fn call(&mut self, node: usize) -> u32 {
@@ -72,15 +76,26 @@ impl<'x> Host for H<'x> {
 
 impl<'a> CycRef<'a> {
     fn body(&self, n: usize, vals: &[u32]) -> (u32, Vec<usize>, bool) {
-        let mut h = H { world: self.world, vals, calls: vec![], untracked: false };
+        let mut h = H { world: self.world, vals, calls: vec![], untracked: false, reads: BTreeSet::new() };
         let out = run_body(&mut h, self.prog, n, 0, None, None);
         (out.ret, h.calls, h.untracked)
+    }
+
+    fn body_reads(&self, n: usize) -> BTreeSet<(usize, usize)> {
+        let mut h = H { world: self.world, vals: &self.vals, calls: vec![], untracked: false, reads: BTreeSet::new() };
+        let _ = run_body(&mut h, self.prog, n, 0, None, None);
+        h.reads
+    }
+
+    /// input fields that the from-scratch evaluation of `n` reads, directly or through callees
+    pub fn transitive_reads(&self, n: usize) -> BTreeSet<(usize, usize)> {
+        self.reach(n).iter().flat_map(|x| self.reads[*x].iter().copied()).collect()
     }
 
     pub fn solve(prog: &'a Program, world: &'a World) -> Self {
         let n = prog.nodes.len();
         let (lo, hi) = (prog.blk_lo as usize, prog.blk_hi as usize);
-        let mut me = CycRef { prog, world, vals: vec![0; n], edges: vec![vec![]; n], diverged: false, rounds: 0, on_cycle: BTreeSet::new(), untracked: vec![false; n] };
+        let mut me = CycRef { prog, world, vals: vec![0; n], edges: vec![vec![]; n], diverged: false, rounds: 0, on_cycle: BTreeSet::new(), untracked: vec![false; n], reads: vec![BTreeSet::new(); n] };
         // 1. below the block: acyclic, in index order
         for i in 0..lo {
             let (v, e, u) = me.body(i, &me.vals);
@@ -168,6 +183,9 @@ impl<'a> CycRef<'a> {
             me.vals[i] = v;
             me.edges[i] = e;
             me.untracked[i] = u;
+        }
+        for i in 0..n {
+            me.reads[i] = me.body_reads(i);
         }
         me
     }
@@ -268,4 +286,28 @@ impl<'a> CycRef<'a> {
             None => false,
         }
     }
+}
+
+/// Known-finding diagnosis (#12): fixpoint members whose *finalized* memo (verified final, with a
+/// cycle head other than itself) records a dependency set that does not cover an input field the
+/// member transitively reads, where that field has been written during the run. Such a memo is
+/// validated by its own incomplete list in later revisions. Node edges are taken to cover
+/// everything the callee reads (generous to salsa).
+pub fn incomplete_participants(cr: &CycRef, infos: &[crate::db::MemoInfo], written: &BTreeSet<(usize, usize)>) -> Vec<(usize, Vec<(usize, usize)>)> {
+    let mut out = vec![];
+    for info in infos {
+        if !(info.has_value && info.verified_final && !info.other_heads.is_empty()) {
+            continue;
+        }
+        let rs = cr.transitive_reads(info.node);
+        let mut cs = info.fields.clone();
+        for y in &info.nodes {
+            cs.extend(cr.transitive_reads(*y));
+        }
+        let missing: Vec<(usize, usize)> = rs.difference(&cs).filter(|f| written.contains(f)).copied().collect();
+        if !missing.is_empty() {
+            out.push((info.node, missing));
+        }
+    }
+    out
 }
